@@ -99,11 +99,10 @@ func runC03(ctx context.Context, cs c03case, budget int64) (cls, msg string, ski
 	if len(pv) == 0 {
 		if cs.Depth > 0 && !rootDrawn && len(rootMoves) > 0 {
 			// is any legal move explored at the root?
-			ex := search.FullExploration
+			pred := func(board.Move) bool { return true }
 			if rcfg.Explore != nil {
-				ex = rcfg.Explore
+				_, pred = rcfg.Explore(ctx, b2)
 			}
-			_, pred := ex(ctx, b2)
 			for _, rm := range rootMoves {
 				im, ok := bridge.FindImpl(b2.Position(), b2.Turn(), rm.String())
 				if !ok || !b2.PushMove(im) {
@@ -158,11 +157,7 @@ func runPonder(ctx context.Context, cs c03case, budget int64) (cls, msg string, 
 		}
 		b2, g2 := newSearchBoards(cs.Root, 0)
 		reset(ctx, b2)
-		explore := search.FullExploration
-		if rcfg.Explore != nil {
-			explore = rcfg.Explore
-		}
-		_ = explore // the ponder move is explored "even if not intended to be explored"
+		// (the ponder move is explored "even if not intended to be explored")
 		cv, ok, cerr := refsearch.New(rcfg, b2, g2, budget).ChildValue(ctx, rm.String(), cs.Depth)
 		if cerr != nil || !ok {
 			skipped = true
